@@ -98,7 +98,7 @@ def buffer_ownership(ctx, R, DR):
                     and isinstance(n.func.value.value, ast.Name) and n.func.value.value.id == f.params[0] and len(n.args) == 1:
                 attr = attr or n.func.value.attr
     if attr is None:
-        raise AnalysisError(f"{DR}: the attribute accumulating the received bytes was not found")
+        return          # (no `self.x += data`: what the callback does with the bytes is the subject of the rules below)
     cls = cb.cls
     family = {k.qual: k for k in prog.mro(cls) + prog.subclasses(cls) if k.module.name.startswith("msmart")}
     hits = [(k, a, node, q) for k, a, node, q in shared_mutable_state(prog, list(family.values())) if a == attr]
